@@ -24,6 +24,24 @@ def nobb(e):
     return tuple(nobb(x) if isinstance(x, tuple) else x for x in e)
 
 
+COPY_FREE = ("core::ptr::copy_nonoverlapping", "core::ptr::copy")
+COPY_TO = ("<*const T>::copy_to_nonoverlapping", "<*const T>::copy_to", "<*mut T>::copy_to_nonoverlapping", "<*mut T>::copy_to")
+COPY_FROM = ("<*mut T>::copy_from_nonoverlapping", "<*mut T>::copy_from")
+
+
+def copy_args(t):
+    """(src operand, dst operand, count operand) of a bulk-copy call in any of its spellings, else None."""
+    c = atomics.callee_of(t)
+    a = t["args"]
+    if c in COPY_FREE and len(a) == 3:
+        return a[0], a[1], a[2]
+    if c in COPY_TO and len(a) == 3:
+        return a[0], a[1], a[2]
+    if c in COPY_FROM and len(a) == 3:
+        return a[1], a[0], a[2]
+    return None
+
+
 def find_calls(e, name, out):
     if not isinstance(e, tuple):
         return
@@ -115,8 +133,8 @@ def rule_init(ctx, rep, only=None):
                         fp = _field_path_of(d, t, data_name)
                         if fp is not None:
                             writes.setdefault(fp, []).append((bi, "write", t2))
-                    elif c in ("core::ptr::copy_nonoverlapping", "core::ptr::copy"):
-                        d = nobb(symx.expr(F, B, t2["args"][1]))
+                    elif copy_args(t2) is not None:
+                        d = nobb(symx.expr(F, B, copy_args(t2)[1]))
                         fp = _field_path_of(d, t, data_name)
                         if fp is not None:
                             writes.setdefault(fp, []).append((bi, "copy", t2))
@@ -139,7 +157,7 @@ def rule_init(ctx, rep, only=None):
                     good = True
                     why = None
                     for wbi, how, t2 in ws:
-                        e0 = symx.expr(F, B, t2["args"][0] if how == "write" else t2["args"][1])
+                        e0 = symx.expr(F, B, t2["args"][0] if how == "write" else copy_args(t2)[1])
                         in_loop = _mentions(e0, "induction") or _in_cycle(B, wbi)
                         for mb in make_bbs:
                             if in_loop:
@@ -209,13 +227,13 @@ def rule_lenflow(ctx, rep):
                 if not (L[0] == "call" and L[2] == "len" and _rooted_at_arg(L[3][0], 2)):
                     ok, why = False, "the allocation length %s is not `len()` of the input" % symx.show(L)
                 if name in ("from_header_and_slice", "from_header_and_vec"):
-                    copies = [t2 for bi, t2 in B.calls() if atomics.callee_of(t2) == "core::ptr::copy_nonoverlapping"]
+                    copies = [t2 for bi, t2 in B.calls() if copy_args(t2) is not None]
                     if len(copies) != 1:
                         ok, why = False, "expected exactly one bulk copy, found %d" % len(copies)
                     else:
                         c = copies[0]
-                        n = nobb(symx.expr(F, B, c["args"][2]))
-                        src = nobb(symx.expr(F, B, c["args"][0]))
+                        n = nobb(symx.expr(F, B, copy_args(c)[2]))
+                        src = nobb(symx.expr(F, B, copy_args(c)[0]))
                         if n != L:
                             ok, why = False, "the bulk copy moves %s elements but the block was sized for %s" % (symx.show(n), symx.show(L))
                         if not (src[0] == "call" and src[2] in ("as_ptr", "as_mut_ptr") and _rooted_at_arg(src[3][0], 2)):
@@ -274,7 +292,7 @@ def rule_moveonce(ctx, rep):
         for b in F.method("Arc", "from_header_and_vec"):
             B = cfg.Body(b)
             dom = B.dominators()
-            copies = [(bi, t) for bi, t in B.calls() if atomics.callee_of(t) == "core::ptr::copy_nonoverlapping"]
+            copies = [(bi, t) for bi, t in B.calls() if copy_args(t) is not None]
             sets = [(bi, t) for bi, t in B.calls() if atomics.callee_of(t) == "<alloc::vec::Vec<T, A>>::set_len"]
             rets = [i for i, bl in enumerate(b["blocks"]) if bl["term"]["k"] == "return"]
             ok = True
@@ -317,7 +335,7 @@ def rule_moveonce(ctx, rep):
                         src = nobb(symx.expr(F, B, t["args"][0]))
                         raws = []
                         find_calls(src, "into_raw", raws)
-                        if raws and _rooted_at_arg(raws[0][3][0], 1):
+                        if (raws and _rooted_at_arg(raws[0][3][0], 1)) or _rooted_at_arg(src, 1):
                             # and it is dropped
                             dl = t["dest"]["l"]
                             used = [u for u in _uses(b, dl)]
